@@ -114,7 +114,8 @@ def run(ctx):
         ctx.instance("C14.await-in-rewind-window", "_process_resend[no rewind]", True, "", loc(rf))
     else:
         if not restores:
-            raise AnalysisError("_process_resend: rewind found but no restoring write")
+            ctx.instance("C14.await-in-rewind-window", "_process_resend[rewound counter never restored]", False,
+                         "next_num_out is rewound and no write restores exactly the saved value: every later send runs inside the rewind window", loc(rf))
         window = rg.reach(rewinds, avoid=restores, exc=True)
         send_lock = lock_guarded(sp.encode_calls[0], sp.fn)
         seen = set()
